@@ -5,9 +5,11 @@ cd "$(dirname "$0")"
 export GOFLAGS=-mod=mod GOPROXY=off CGO_ENABLED=0
 mkdir -p bin evidence replays
 (cd tools/extract && go build -o ../../bin/extract .)
-./bin/extract /repo "$(pwd)/lean/Bolt/Gen"
+REPO=${VERIF_REPO:-/repo}
+./bin/extract $REPO "$(pwd)/lean/Bolt/Gen"
 (cd lean && lake build Bolt boltmodel)
-cp /repo/go.sum harness/go.sum
+[ "$REPO" != /repo ] && (cd harness && go mod edit -replace=go.etcd.io/bbolt=$REPO)
+cp $REPO/go.sum harness/go.sum
 (cd harness && go build -tags verif -o ../bin/vh .)
-(cd /repo && go build -o /verif/bin/bbolt ./cmd/bbolt)
+(cd $REPO && go build -o "$OLDPWD/bin/bbolt" ./cmd/bbolt)
 echo setup ok
